@@ -91,6 +91,9 @@ Fixpoint ssortedb (ks : list Z) : bool :=
   end.
 Definition keys {V} (l : list (Z * V)) : list Z := map fst l.
 
+(* the dtype / device bookkeeping keywords (Identity: dtype, device; Cat: output_device) *)
+Definition is_dt_key (k : Z) : bool := Z.eqb k k_dtype || Z.eqb k k_device || Z.eqb k k_output_device.
+
 Definition node_okS (c : cls) (sch : list skel) (dn : list Z) (nd : list (Z * value)) : bool :=
   let s := spec_of c in
   let n := length sch - length dn in
@@ -102,7 +105,8 @@ Definition node_okS (c : cls) (sch : list skel) (dn : list Z) (nd : list (Z * va
   && forallb (fun k => zmem k ks) (pkw_names s)
   && forallb (fun k => zmem k (pkw_names s) || (cs_varkw s && negb (zmem k (names_of (cs_named s))))) ks
   && s_norm_ok c (firstn n sch)
-  && negb (cls_eqb c CBlockDiag && existsb s_diag_like (firstn n sch)).
+  && negb (cls_eqb c CBlockDiag && existsb s_diag_like (firstn n sch))
+  && forallb (fun k => negb (is_dt_key k)) dn.       (* ... are never tensors / operators *)
 
 Definition sk_list := fix go (l : list arg) : list skel := match l with [] => [] | x :: r => sk x :: go r end.
 Definition node_okb (c : cls) (ch : list arg) (dn : list Z) (nd : list (Z * value)) : bool :=
